@@ -236,14 +236,18 @@ func (k *keyEmu) Step(c *StepCtx) {
 // ---------------------------------------------------------------- C07 monitor
 
 type ccMon struct {
-	val map[[2]int]int // (ch, controller) -> last value at the receiver
+	val   map[[2]int]int  // (ch, controller) -> last value at the receiver
+	stale map[string]bool // axis -> a learning-suppressed move happened since its last transmission (receiver legitimately behind)
 }
 
-func newCCMon() *ccMon { return &ccMon{val: map[[2]int]int{}} }
+func newCCMon() *ccMon { return &ccMon{val: map[[2]int]int{}, stale: map[string]bool{}} }
 func (m *ccMon) Clone(*worker) Monitor {
 	n := newCCMon()
 	for a, b := range m.val {
 		n.val[a] = b
+	}
+	for a, b := range m.stale {
+		n.stale[a] = b
 	}
 	return n
 }
@@ -253,7 +257,14 @@ func (m *ccMon) Key(b *strings.Builder) {
 		ks = append(ks, fmt.Sprintf("%d/%d=%d", k[0], k[1], v))
 	}
 	sort.Strings(ks)
-	fmt.Fprintf(b, "cc%v", ks)
+	st := make([]string, 0, len(m.stale))
+	for k, v := range m.stale {
+		if v {
+			st = append(st, k)
+		}
+	}
+	sort.Strings(st)
+	fmt.Fprintf(b, "cc%v%v", ks, st)
 }
 
 func (m *ccMon) Step(c *StepCtx) {
@@ -303,11 +314,28 @@ func (m *ccMon) Step(c *StepCtx) {
 		if len(c.Msgs) > 0 {
 			c.viol("learning-transmits-small-deflection", fmt.Sprintf("CC-learning held, %s is a deflection of %s (<= half travel) but %v was transmitted", c.Ev.String(c.S.Alpha), v.FloatString(3), msgStrings(c.Msgs)))
 		}
+		m.stale[a.Name] = true
 		return
 	}
 	if len(c.Msgs) == 0 {
-		return // nothing transmitted (duplicate suppression): (B),(C) speak about transmitted steps
+		// nothing transmitted: only legitimate as duplicate suppression, i.e. when the receiver already shows this position
+		// (unless a learning-suppressed move left the receiver behind on purpose)
+		if m.stale[a.Name] {
+			return
+		}
+		exactM := new(bigRat).Mul(mag, rat(127, 1))
+		fm, _ := exactM.Float64()
+		okv := func(x int) bool { return float64(x) >= fm-1.0000001 && float64(x) <= fm+1.0000001 }
+		curK, othK := pk, nk
+		if v.Sign() < 0 {
+			curK, othK = nk, pk
+		}
+		if (v.Sign() != 0 && (!okv(m.val[curK]) || m.val[othK] != 0)) || (v.Sign() == 0 && (m.val[pk] != 0 || m.val[nk] != 0)) {
+			c.viol("position-change-not-transmitted", fmt.Sprintf("%s moves %s to %s but nothing was transmitted although the receiver shows cc%d=%d cc%d=%d", c.Ev.String(c.S.Alpha), a.Name, v.FloatString(3), a.CC, m.val[pk], a.CCNeg, m.val[nk]))
+		}
+		return
 	}
+	m.stale[a.Name] = false
 	// (B) side + value
 	exact := new(bigRat).Mul(mag, rat(127, 1))
 	f, _ := exact.Float64()
@@ -342,4 +370,101 @@ crossing:
 			c.viol("bidir-no-explicit-zero", fmt.Sprintf("%s leaves the side of controller %d (was %d at the receiver) without sending it an explicit 0", c.Ev.String(c.S.Alpha), side[1], before[side]))
 		}
 	}
+}
+
+// ---------------------------------------------------------------- C06 (state part): transfer function across mapping switches
+
+// xferMon: receiver values per (channel, controller); after every transmitted axis step the value must be within one
+// step of the exact value computed with the deadzone / options of the CURRENT mapping.
+type xferMon struct {
+	val map[[2]int]int
+}
+
+func newXferMon() *xferMon { return &xferMon{val: map[[2]int]int{}} }
+func (m *xferMon) Clone(*worker) Monitor {
+	n := newXferMon()
+	for a, b := range m.val {
+		n.val[a] = b
+	}
+	return n
+}
+func (m *xferMon) Key(b *strings.Builder) {
+	ks := make([]string, 0, len(m.val))
+	for k, v := range m.val {
+		ks = append(ks, fmt.Sprintf("%d/%d=%d", k[0], k[1], v))
+	}
+	sort.Strings(ks)
+	fmt.Fprintf(b, "xf%v", ks)
+}
+
+func axisInMapping(d *Desc, mp int, name string) *AxisDesc {
+	for i := range d.Mappings[mp].Axes {
+		if d.Mappings[mp].Axes[i].Name == name {
+			return &d.Mappings[mp].Axes[i]
+		}
+	}
+	return nil
+}
+
+func (m *xferMon) Step(c *StepCtx) {
+	for _, msg := range c.Msgs {
+		if pm := parse(msg); pm.kind == kCC {
+			m.val[[2]int{pm.ch, pm.a}] = pm.b
+		}
+	}
+	if !c.Sym.IsAxis {
+		if c.Sym.Action != "" && len(c.Msgs) > 0 {
+			c.viol("xfer-action-emits", fmt.Sprintf("%s emitted %d message(s)", c.Ev.String(c.S.Alpha), len(c.Msgs)))
+		}
+		return
+	}
+	a := axisInMapping(c.S.D, c.Pre.Map, c.Sym.Name)
+	if a == nil {
+		if len(c.Msgs) > 0 {
+			c.viol("xfer-unmapped-axis-emits", fmt.Sprintf("%s is not mapped in mapping %s but %v was transmitted", c.Sym.Name, c.S.D.Mappings[c.Pre.Map].Name, msgStrings(c.Msgs)))
+		}
+		return
+	}
+	if a.Type != "cc" || len(c.Msgs) == 0 {
+		return
+	}
+	tgt := "cc"
+	if a.CCNeg >= 0 {
+		tgt = "bidir"
+	}
+	for _, e := range c06Expect(a, c06Variant{Target: tgt}, c.Ev.Val, c.Pre.Ch) {
+		var ch, cc int
+		fmt.Sscanf(e.key, "cc/%d/%d", &ch, &cc)
+		got := m.val[[2]int{ch, cc}]
+		fl := new(big.Int).Div(e.exact.Num(), e.exact.Denom()).Int64()
+		hi := fl + 1
+		if !e.exact.IsInt() {
+			hi++
+		}
+		if int64(got) < fl-1 || int64(got) > hi {
+			f, _ := e.exact.Float64()
+			c.viol("transfer-wrong-after-state-change", fmt.Sprintf("%s in mapping %s (deadzone %v): controller %d is %d at the receiver, exact value %.3f", c.Ev.String(c.S.Alpha), c.S.D.Mappings[c.Pre.Map].Name, a.Deadzone, cc, got, f))
+			return
+		}
+	}
+}
+
+// xferScenarios: the same axes with DIFFERENT deadzones / options in three mappings, mapping up/down (incl. the pair reset)
+func xferScenarios(big bool) []*Desc {
+	d := base("transfer-across-mappings", "interrupt")
+	pos := []int32{-128, -90, -40, 0, 40, 90, 127}
+	upos := []int32{0, 60, 128, 200, 255}
+	mk := func(dz1, dz2 float64, flip bool) []AxisDesc {
+		return []AxisDesc{
+			{Name: "ABS_X", Type: "cc", CC: 1, CCNeg: 2, Min: -128, Max: 127, Deadzone: dz1, Flip: flip, Pos: pos},
+			{Name: "ABS_Z", Type: "cc", CC: 5, CCNeg: -1, Min: 0, Max: 255, Deadzone: dz2, Pos: upos},
+		}
+	}
+	d.Mappings = []MapDesc{
+		{Name: "M0", Keys: km{K1: {60, 0}}, Axes: mk(0.1, 0.05, false)},
+		{Name: "M1", Keys: km{K1: {61, 0}}, Axes: mk(0.5, 0.4, true)},
+		{Name: "M2", Keys: km{K1: {62, 0}}, Axes: mk(0.25, 0, false)[:1]},
+	}
+	acts(d, MU, "mapping_up", MD, "mapping_down")
+	return []*Desc{d}
 }
